@@ -737,7 +737,7 @@ class Renderer:
                 if v != want:
                     arity = 0
             if arity:
-                self.guards = self.guards + (("loop", coll, arity),)
+                self.guards = self.guards + (("loop", coll, arity, canon_full),)
             bodies = 0
             for i in range(arity):
                 sc = Scope(scope)
@@ -1539,10 +1539,11 @@ def cover(ts: TemplateSet, name: str, constraints=None, const_roots=None, max_ru
     infeasible = 0
     runs = 0
     base_forced = dict(base_forced or {})
-    queue: List[Tuple[dict, bool, int]] = [(dict(base_forced), d, ld) for d, ld in seeds]
+    queue: List[Tuple[dict, bool, int, Any]] = [(dict(base_forced), d, ld, None) for d, ld in seeds]
     errors = []
+    attempts: Dict[Any, int] = {}
     while queue and runs < max_runs:
-        forced, default, ld = queue.pop(0)
+        forced, default, ld, target = queue.pop(0)
         runs += 1
         val = Valuation(forced, default, ld, constraints)
         r = Renderer(ts, val, const_roots, known_roots)
@@ -1550,6 +1551,9 @@ def cover(ts: TemplateSet, name: str, constraints=None, const_roots=None, max_ru
             sk = r.render(name)
         except Infeasible:
             infeasible += 1
+            # the same (site, outcome) may be feasible from another prefix: allow a few more attempts
+            if target is not None and attempts.get(target, 0) < 4:
+                scheduled.discard(target)
             continue
         trace = val.trace
         new = {(site, v if not a.startswith("LOOP:") else min(v, 2)) for a, v, site in trace} - covered
@@ -1572,7 +1576,8 @@ def cover(ts: TemplateSet, name: str, constraints=None, const_roots=None, max_ru
                 f2.update(prefix)
                 f2[a] = alt
                 scheduled.add(key)
-                queue.append((f2, default, ld))
+                attempts[key] = attempts.get(key, 0) + 1
+                queue.append((f2, default, ld, key))
             prefix.setdefault(a, v)
     stats = {"runs": runs, "variants": len(variants), "sites_outcomes": len(covered),
              "infeasible_targets": infeasible, "queue_left": len(queue)}
